@@ -1,13 +1,21 @@
 CHECK = {
     "level": "exploration",
     "assumptions": ["expiration workers and goroutines spawned by request handlers run ungated",
-                    "TTL lapse is checked with a 1 s wrap TTL and a 2.5 s wait (only 'dead after', never 'alive near expiry')"],
+                    "TTL lapse is checked with a 1 s wrap TTL and a 2.5 s wait (only 'dead after', never 'alive near expiry')",
+                    "namespaces unit: sequential histories only; namespace deletion is not exercised; a departed client is a cancelled request context"],
     "units": [
-        unit("unwrap", "vault", ["vault/c18_test.go"], "^TestVerif_C18_",
+        unit("unwrap", "vault", ["vault/c18_test.go"], "^TestVerif_C18_UnwrapOnce$",
              quick={"checks": 200, "shards": 1, "cap": 900},
              thorough={"checks": 1500, "shards": 16, "cap": 3000},
              # lock hand-over between two blocked request goroutines is decided by the Go runtime, so a failing schedule
              # need not fail again when rapid re-runs it; the verdict is a fact about the history that did happen
+             flaky_is_violation=True),
+        # c04_test.go only for keyClass (used by c18_test.go) when the driver falls back to building the unit's files alone
+        unit("namespaces", "vault", ["vault/c18_test.go", "vault/c18ns_test.go", "vault/c04_test.go"], "^TestVerif_C18_Namespaces$",
+             quick={"checks": 400, "shards": 1, "cap": 900},
+             thorough={"checks": 1500, "shards": 16, "cap": 3000},
+             # where the cancellation of a client-gone attempt lands inside the server is decided by the Go runtime
+             # (context.AfterFunc runs in a goroutine of its own); the verdict is a fact about the history that did happen
              flaky_is_violation=True),
     ],
 }
